@@ -246,8 +246,8 @@ cdef class CJokerHelper:
                 self.Lambda[i] = std ** 2
                 self.mu[i] = mu
 
-            else:  # v1, v2, etc.
-                j = i + self.n_offsets
+            else:  # K (custom prior) keeps slot 0; v1, v2, etc.
+                j = i + self.n_offsets if i > 0 else 0
                 self.Lambda[j] = std ** 2
                 self.mu[j] = mu
         # ---------------------------------------------------------------------
